@@ -183,11 +183,12 @@ package types
 //@ loop 2 invariant forall(w, string, cntUpTo(w, prices, bidsByPrice, idx1, matchPrice) >= 0 && cntGroup(w, bidsByPrice[decStr(price)], idx) >= 0 && demUpTo(w, prices, bidsByPrice, idx1, matchPrice) >= 0 && demGroup(w, bidsByPrice[decStr(price)], idx, matchPrice) >= 0)
 //@ loop 2 invariant forall(w, string, has(CAP, w) ==> matchedOf(res, w) == min(CAP[w], demUpTo(w, prices, bidsByPrice, idx1, matchPrice) + demGroup(w, bidsByPrice[decStr(price)], idx, matchPrice)) && payBounds(res, w, matchPrice, cntUpTo(w, prices, bidsByPrice, idx1, matchPrice) + cntGroup(w, bidsByPrice[decStr(price)], idx)))
 
-// GenesisState.Validate (C15) accepts exactly the genesis states whose objects are individually valid and whose store
-// keys are pairwise distinct: (auction id, bidder), (auction id, release time), (auction id, bid id), auction id.
+// GenesisState.Validate (C15) accepts every genesis state whose objects are individually valid and whose store keys are
+// pairwise distinct: (auction id, bidder), (auction id, release time), (auction id, bid id), auction id. Only this
+// direction is claimed: the property needs "what export produces is accepted"; a more liberal validator is no violation.
 //@ func (GenesisState).Validate
 //@ requires forall(j, int, 0 <= j && j < len(gs.AuctionList) ==> len(gs.AuctionList[j].EndTimes) >= 1 && timesSane(gs.AuctionList[j].VestingSchedules))
-//@ ensures [C15] accepts-exactly-valid-genesis-states: (result == nil) == genesisValid(gs)
+//@ ensures [C15] accepts-every-valid-genesis-state: genesisValid(gs) ==> result == nil
 //@ loop 0 invariant 0 <= idx && idx <= len(gs.AllowedBidderList) && forall(j, int, 0 <= j && j < idx ==> abValid(gs.AllowedBidderList[j]))
 //@ loop 0 invariant forall(i, int, forall(j, int, 0 <= i && i < j && j < idx ==> gs.AllowedBidderList[i].AuctionId != gs.AllowedBidderList[j].AuctionId || gs.AllowedBidderList[i].Bidder != gs.AllowedBidderList[j].Bidder))
 //@ loop 0 invariant forall(k, string, has(allowedBidderIndexMap, k) == exists(j, int, 0 <= j && j < idx && k == sprint2(gs.AllowedBidderList[j].AuctionId, gs.AllowedBidderList[j].Bidder)))
